@@ -727,4 +727,140 @@ theorem romV20_section_byte_tampered (h : CryptoLaws c) (cfg : Cfg) (signed : Bo
       exact romV20_signed_of_sections_error h cfg wf' B lB hr
     · exact Or.inr hb
 
+/-! ## SB 2.0: header and header-MAC field (the header MAC of 2.0 is HMAC(mac key, header)) -/
+
+/-- ANY file that starts with a 96-byte header `H`, a 32-byte field `M` and the wrapped keys, and whose header still points at
+    that key blob (block 8, 5 blocks), is refused by the SB 2.0 reader unless `M` is the HMAC of `H` under the wrapped MAC key -/
+theorem romV20_header_mac_mismatch (h : CryptoLaws c) (kek dek mac H M T : Bytes) (wdek : dek.length = 32) (wmac : mac.length = 32)
+    (lH : H.length = 96) (lM : M.length = 32) (lT : 8 ≤ T.length)
+    (hkb : ∀ h', Rom.readImageHdr (H ++ M ++ (kwWrap c kek (dek ++ mac) ++ T)) = .ok h' → h'.keyBlobBlock = 8 ∧ h'.keyBlobBlockCount = 5)
+    (hne : M ≠ hmac c .sha256 mac H) :
+    ∃ e, Rom.romV20 c kek (H ++ M ++ (kwWrap c kek (dek ++ mac) ++ T)) = .error e := by
+  have lkw : (kwWrap c kek (dek ++ mac)).length = 72 := by
+    rw [Crypto.kwWrap_length h _ _ (by simp [wdek, wmac])]; simp [wdek, wmac]
+  generalize hfile : H ++ M ++ (kwWrap c kek (dek ++ mac) ++ T) = file at *
+  have flen : 208 ≤ file.length := by
+    rw [← hfile]; simp only [List.length_append, lH, lM, lkw]; omega
+  have f1 : file.take 96 = H := by
+    rw [← hfile, List.append_assoc]; exact List.take_left' lH
+  have f2 : Rom.slice file 96 32 = M := by
+    rw [← hfile]; exact slice_mid _ _ _ _ _ lH.symm lM.symm
+  have f3 : Rom.slice file 128 72 = kwWrap c kek (dek ++ mac) := by
+    rw [← hfile, ← List.append_assoc]
+    exact slice_mid _ _ _ _ _ (by simp only [List.length_append, lH, lM]) lkw.symm
+  unfold Rom.romV20
+  cases hr : Rom.readImageHdr file with
+  | error e => exact ⟨_, rfl⟩
+  | ok h' =>
+    obtain ⟨g6, g7⟩ := hkb h' hr
+    simp only []
+    by_cases hv : h'.major ≠ 2 ∨ h'.minor ≠ 0
+    · rw [if_pos hv]; exact ⟨_, rfl⟩
+    · rw [if_neg hv]
+      by_cases hb : h'.headerBlocks * 16 ≠ Spec.imageHeaderSize
+      · rw [if_pos hb]; exact ⟨_, rfl⟩
+      · rw [if_neg hb, readKeys_ok h kek dek mac file h' g6 g7 flen f3 wdek wmac]
+        simp only []
+        have hc : Rom.slice file Spec.imageHeaderSize Spec.macSize ≠ hmac c .sha256 mac (file.take Spec.imageHeaderSize) := by
+          show Rom.slice file 96 32 ≠ hmac c .sha256 mac (file.take 96)
+          rw [f1, f2]; exact hne
+        rw [if_pos hc]
+        exact ⟨_, rfl⟩
+
+/-- what follows the wrapped keys in a V2.0 file -/
+def tail20 (c : CryptoOps) (cfg : Cfg) (hdr : ImageHdr) (cs sg : Bytes) : Bytes :=
+  cfg.padding ++ (cs ++ (buildSections c cfg.dek cfg.mac cfg.nonce
+    (nonceCtr cfg.nonce + (encodeImageHdr hdr ++ hmac256 c cfg.mac (encodeImageHdr hdr) ++ kwWrap c cfg.kek (cfg.dek ++ cfg.mac) ++
+      cfg.padding).length / 16 + cs.length / 16) cfg.sections ++ sg))
+
+theorem file20_shape (cfg : Cfg) (hdr : ImageHdr) (cs sg : Bytes) :
+    file20 c cfg hdr cs sg = encodeImageHdr hdr ++ hmac c .sha256 cfg.mac (encodeImageHdr hdr) ++
+      (kwWrap c cfg.kek (cfg.dek ++ cfg.mac) ++ tail20 c cfg hdr cs sg) := by
+  unfold file20 tail20 hmac256; simp only [List.append_assoc]
+
+/-- shape of a built SB 2.0 file: header ‖ HMAC(header) ‖ wrapped keys ‖ at least the 8 padding bytes -/
+theorem buildV20_shape (cfg : Cfg) (signed : Bool) (wpad : cfg.padding.length = 8) :
+    ∃ T : Bytes, 8 ≤ T.length ∧
+      buildV20 c cfg signed = encodeImageHdr (cfg.header20 signed) ++ hmac c .sha256 cfg.mac (encodeImageHdr (cfg.header20 signed)) ++
+        (kwWrap c cfg.kek (cfg.dek ++ cfg.mac) ++ T) := by
+  cases signed
+  · refine ⟨tail20 c cfg (cfg.header20 false) [] [], ?_, ?_⟩
+    · unfold tail20; rw [List.length_append, wpad]; omega
+    · rw [buildV20_unsigned]; exact file20_shape cfg _ _ _
+  · refine ⟨tail20 c cfg (cfg.header20 true)
+      (buildCertSection c cfg.dek cfg.mac cfg.nonce (nonceCtr cfg.nonce + (pre20 c cfg (cfg.header20 true)).length / 16) cfg.certBlock)
+      cfg.signature, ?_, ?_⟩
+    · unfold tail20; rw [List.length_append, wpad]; omega
+    · rw [buildV20_signed]; exact file20_shape cfg _ _ _
+
+/-- one changed byte in the header-MAC field (bytes 96..127) of an SB 2.0 file: always refused -/
+theorem romV20_hmac_byte_tampered (h : CryptoLaws c) (cfg : Cfg) (signed : Bool) (wf : Spec.WF20 cfg signed) (i : Nat) (v : UInt8)
+    (h1 : 96 ≤ i) (h2 : i < 128) (hv : some v ≠ (buildV20 c cfg signed)[i]?) :
+    ∃ e, Rom.romV20 c cfg.kek ((buildV20 c cfg signed).set i v) = .error e := by
+  have ⟨hok, hrom⟩ := header20_facts cfg signed wf
+  obtain ⟨wdek, wmac, wnonce, wpad, wts, wpv, wcv, wbn, wsg, wne, wsec, wlen, wmc⟩ := wf
+  obtain ⟨T, lT, e⟩ := buildV20_shape (c := c) cfg signed wpad
+  have lH : (encodeImageHdr (cfg.header20 signed)).length = 96 := encodeImageHdr_length _ hok.nonce hok.padding
+  have lM : (hmac c .sha256 cfg.mac (encodeImageHdr (cfg.header20 signed))).length = 32 := hmac256_length h _ _
+  rw [e] at hv ⊢
+  rw [set_mid' _ _ _ i v (by rw [lH]; exact h1) (by rw [lH, lM]; omega), lH]
+  rw [List.getElem?_append_left (by rw [List.length_append, lH, lM]; omega),
+    List.getElem?_append_right (by rw [lH]; exact h1), lH] at hv
+  have hne := set_ne_self _ (i - 96) v (by rw [lM]; omega) hv
+  refine romV20_header_mac_mismatch h cfg.kek cfg.dek cfg.mac _ _ T wdek wmac lH (by rw [List.length_set, lM]) lT ?_ hne
+  intro h' hr
+  rw [List.append_assoc, readImageHdr_encode _ hok, hrom] at hr
+  injection hr with hr
+  subst hr
+  exact ⟨rfl, rfl⟩
+
+/-- one changed byte in the 96-byte header of an SB 2.0 file, the header still pointing at the key blob (block 8, 5 blocks —
+    i.e. the two 16-bit words at offsets 46 and 48 read as before): refused, or an HMAC forgery under the image's MAC key -/
+theorem romV20_header_byte_tampered (h : CryptoLaws c) (cfg : Cfg) (signed : Bool) (wf : Spec.WF20 cfg signed) (i : Nat) (v : UInt8)
+    (h2 : i < 96) (hv : some v ≠ (buildV20 c cfg signed)[i]?)
+    (hkb : ∀ h', Rom.readImageHdr ((buildV20 c cfg signed).set i v) = .ok h' → h'.keyBlobBlock = 8 ∧ h'.keyBlobBlockCount = 5) :
+    (∃ e, Rom.romV20 c cfg.kek ((buildV20 c cfg signed).set i v) = .error e) ∨ Break c := by
+  have ⟨hok, hrom⟩ := header20_facts cfg signed wf
+  obtain ⟨wdek, wmac, wnonce, wpad, wts, wpv, wcv, wbn, wsg, wne, wsec, wlen, wmc⟩ := wf
+  obtain ⟨T, lT, e⟩ := buildV20_shape (c := c) cfg signed wpad
+  have lH : (encodeImageHdr (cfg.header20 signed)).length = 96 := encodeImageHdr_length _ hok.nonce hok.padding
+  have lM : (hmac c .sha256 cfg.mac (encodeImageHdr (cfg.header20 signed))).length = 32 := hmac256_length h _ _
+  rw [e] at hv hkb ⊢
+  have hset : (encodeImageHdr (cfg.header20 signed) ++ hmac c .sha256 cfg.mac (encodeImageHdr (cfg.header20 signed)) ++
+        (kwWrap c cfg.kek (cfg.dek ++ cfg.mac) ++ T)).set i v
+      = (encodeImageHdr (cfg.header20 signed)).set i v ++ hmac c .sha256 cfg.mac (encodeImageHdr (cfg.header20 signed)) ++
+        (kwWrap c cfg.kek (cfg.dek ++ cfg.mac) ++ T) := by
+    rw [List.append_assoc, List.set_append, if_pos (by rw [lH]; exact h2), List.append_assoc]
+  rw [hset] at hkb ⊢
+  rw [List.append_assoc, List.getElem?_append_left (by rw [lH]; exact h2)] at hv
+  have hne := set_ne_self _ i v (by rw [lH]; exact h2) hv
+  by_cases he : hmac c .sha256 cfg.mac (encodeImageHdr (cfg.header20 signed))
+      = hmac c .sha256 cfg.mac ((encodeImageHdr (cfg.header20 signed)).set i v)
+  · exact Or.inr (Break.hmacForgery .sha256 cfg.mac _ _ (Ne.symm hne) he)
+  · left
+    exact romV20_header_mac_mismatch h cfg.kek cfg.dek cfg.mac _ _ T wdek wmac (by rw [List.length_set, lH]) lM lT hkb he
+
+/-- the hypothesis `hkb` of `romV20_header_byte_tampered` holds for every changed NONCE byte (bytes 0..15): the ROM reads the
+    same header with another nonce (this also serves as the non-vacuity witness of that hypothesis) -/
+theorem hkb_of_nonce_byte (cfg : Cfg) (signed : Bool) (wf : Spec.WF20 cfg signed) (i : Nat) (v : UInt8) (hi : i < 16) :
+    ∀ h', Rom.readImageHdr ((buildV20 c cfg signed).set i v) = .ok h' → h'.keyBlobBlock = 8 ∧ h'.keyBlobBlockCount = 5 := by
+  have ⟨hok, hrom⟩ := header20_facts cfg signed wf
+  obtain ⟨T, lT, e⟩ := buildV20_shape (c := c) cfg signed wf.2.2.2.1
+  have lN : (cfg.header20 signed).nonce.length = 16 := hok.nonce
+  let hdr' : ImageHdr := { cfg.header20 signed with nonce := (cfg.header20 signed).nonce.set i v }
+  have hok' : HdrOk hdr' :=
+    { hok with nonce := by show ((cfg.header20 signed).nonce.set i v).length = 16; rw [List.length_set]; exact lN }
+  have henc : (encodeImageHdr (cfg.header20 signed)).set i v = encodeImageHdr hdr' := by
+    unfold encodeImageHdr
+    simp only [List.append_assoc]
+    rw [List.set_append, if_pos (by rw [lN]; exact hi)]
+  intro h' hr
+  rw [e, List.append_assoc, List.set_append,
+    if_pos (by rw [encodeImageHdr_length _ hok.nonce hok.padding]; omega), henc, readImageHdr_encode _ hok'] at hr
+  injection hr with hr
+  subst hr
+  have : (cfg.header20 signed).toRom.keyBlobBlock = 8 ∧ (cfg.header20 signed).toRom.keyBlobBlockCount = 5 := by
+    rw [hrom]; exact ⟨rfl, rfl⟩
+  exact this
+
 end SpsdkVerif.Sb2
